@@ -21,7 +21,7 @@ type Env struct {
 
 // EnvOpt tunes the environment.
 type EnvOpt struct {
-	UserMethods  bool // some structs get user Equal / Compare methods
+	UserMethods  bool // some structs get user Equal methods (C02)
 	NoExt        bool
 	ExportedOnly bool // only exported fields (GoString)
 	NoPrivateExt bool // ext structs have exported fields only
@@ -182,15 +182,11 @@ func DrawEnv(t *rapid.T, opt EnvOpt) *Env {
 	}
 	if opt.UserMethods {
 		for _, d := range e.Structs {
-			switch rapid.IntRange(0, 5).Draw(t, "usermeth") {
+			switch rapid.IntRange(0, 3).Draw(t, "usermeth") {
 			case 0:
 				d.UserEqual = "ptr"
 			case 1:
 				d.UserEqual = "val"
-			case 2:
-				d.UserCompare = "ptr"
-			case 3:
-				d.UserEqual, d.UserCompare = "ptr", "ptr"
 			}
 		}
 	}
